@@ -35,6 +35,37 @@ def snap(o, depth=0, seen=None):
     return repr(o)
 
 
+def container_ids(o, acc=None, depth=0):
+    """ids of every list / dict / set / bytearray reachable from o"""
+    acc = acc if acc is not None else {}
+    if depth > 40 or o is None or isinstance(o, (bool, int, str, bytes, float, Decimal, enum.Enum, type)):
+        return set(acc)
+    if isinstance(o, (list, dict, set, bytearray)):
+        if id(o) in acc:
+            return set(acc)
+        acc[id(o)] = type(o).__name__
+    if isinstance(o, (list, tuple, set, frozenset)):
+        for x in o:
+            container_ids(x, acc, depth + 1)
+    elif isinstance(o, dict):
+        for k, v in o.items():
+            container_ids(k, acc, depth + 1)
+            container_ids(v, acc, depth + 1)
+    elif dataclasses.is_dataclass(o) and not isinstance(o, type):
+        for f in dataclasses.fields(o):
+            if f.name not in EXCLUDED_ATTRS:
+                container_ids(getattr(o, f.name), acc, depth + 1)
+    return set(acc)
+
+
+def shared_containers(a, b, exclude=frozenset()):
+    ia, ib = {}, {}
+    container_ids(a, ia)
+    container_ids(b, ib)
+    common = (set(ia) & set(ib)) - set(exclude)
+    return sorted({ia[i] for i in common})
+
+
 def first_difference(a, b, path="arg"):
     if type(a) != type(b):
         return f"{path}: {str(a)[:60]} -> {str(b)[:60]}"
